@@ -15,39 +15,62 @@ Proof.
   unfold collected_run. destruct (skipped p) eqn:S; [now rewrite raised_skipped | now apply collected_fresh].
 Qed.
 
-(* the bracket, at the level of the model's trace: the calls on the result are startTest, one
-   outcome, stopTest; the fuel supplied suffices; every body that should run did; the cleanup
-   stack is empty; the exceptions caught are the ones the program raises; the handlers in front
-   of the table are the inserted ones *)
+(* a run of an instance that has been run before: the handlers in front of the table are the ones
+   inserted so far ([u0]), force_failure may still be set ([f0]) *)
+Definition verdict_from (p : prog) (u0 : list (cls * outcome)) (f0 : bool) : outcome * option exc :=
+  if skipped p then (OSkip, None) else decide_u (rev (inserted p) ++ u0) (collected_run p f0).
+
+(* the bracket, at the level of the model's trace, for TestCase.run on an instance in ANY state: the
+   calls on the result are startTest, one outcome, stopTest; the fuel supplied suffices; every body
+   that should run did; the cleanup stack is empty; the exceptions caught are the ones this run
+   raises (nothing is left over from an earlier run); the handlers in front of the table are the
+   inserted ones *)
+Theorem run_from_verdict p s :
+  exists s' d,
+    run_from p s = (s', snd (verdict_from p (uh s) (force s)), false)
+    /\ calls (tr s') = calls (tr s) ++ [TStart; TOut (fst (verdict_from p (uh s) (force s))) d; TStop]
+    /\ map shape (log s') = map shape (log s) ++ expected_log p
+    /\ stack s' = []
+    /\ excs s' = collected_run p (force s) /\ uh s' = rev (inserted p) ++ uh s
+    /\ force s' = force s || (negb (skipped p) && forced p).
+Proof.
+  pose proof (run_from_spec p s) as H. cbv zeta in H.
+  destruct H as (s' & tr0 & R & L & X & F & K & _ & U & T & C0 & _ & _).
+  set (u := rev (inserted p) ++ uh s) in *. set (Y := collected_run p (force s)) in *.
+  assert (Q : exists d, fst (fst (conclude p (handlers_of u) Y
+                                     (prun (run_events p (force s)) (proj (reset s)))))
+                        = [TOut (fst (verdict_from p (uh s) (force s))) d]
+                        /\ snd (fst (conclude p (handlers_of u) Y
+                                     (prun (run_events p (force s)) (proj (reset s)))))
+                           = snd (verdict_from p (uh s) (force s))).
+  { unfold conclude, verdict_from. fold u Y. unfold skipped. destruct (p_skip p) as [r|]; [eexists; split; reflexivity|].
+    destruct Y as [|x r] eqn:E.
+    - rewrite choose_nil. eexists; split; reflexivity.
+    - destruct (choose_decide u (x :: r)) as (e & Ce & D); [discriminate|]. rewrite Ce.
+      destruct (lookup (handlers_of u) e) as [h|]; destruct D as [D1 D2].
+      + rewrite D1. eexists; split; [reflexivity | now rewrite D2].
+      + rewrite D1. eexists; split; [reflexivity | now rewrite D2]. }
+  destruct Q as (d & Q1 & Q2). exists s', d. rewrite Q2 in R. rewrite Q1 in T.
+  split; [exact R|]. split.
+  { rewrite T, calls_app, C0, <- app_assoc. reflexivity. }
+  repeat split; assumption.
+Qed.
+
+Lemma verdict_from_fresh p : verdict_from p (p_handlers p) false = verdict_of p.
+Proof. unfold verdict_from, verdict_of. fold (user_handlers p). now rewrite collected_run_raised. Qed.
+
+(* a fresh instance *)
 Theorem run_verdict p a0 :
   exists s d,
     run p a0 = (s, snd (verdict_of p), false)
     /\ calls (tr s) = [TStart; TOut (fst (verdict_of p)) d; TStop]
     /\ map shape (log s) = expected_log p
-    /\ stack s = [] /\ attrs s = a0
+    /\ stack s = []
     /\ excs s = raised p /\ uh s = user_handlers p.
 Proof.
-  unfold run. pose proof (run_from_spec p (init p a0)) as H. cbv zeta in H.
-  destruct H as (s & tr0 & R & L & X & _ & K & A & U & T & C0 & _ & _).
-  cbn [force init log tr uh attrs] in *. fold (user_handlers p) in *.
-  rewrite collected_run_raised in *.
-  assert (Q : exists d, fst (fst (conclude p (handlers_of (user_handlers p)) (raised p)
-                                     (prun (run_events p false) (proj (reset (init p a0))))))
-                        = [TOut (fst (verdict_of p)) d]
-                        /\ snd (fst (conclude p (handlers_of (user_handlers p)) (raised p)
-                                     (prun (run_events p false) (proj (reset (init p a0))))))
-                           = snd (verdict_of p)).
-  { unfold conclude, verdict_of, skipped. destruct (p_skip p) as [r|]; [eexists; split; reflexivity|].
-    destruct (raised p) as [|x r] eqn:E.
-    - rewrite choose_nil. eexists; split; reflexivity.
-    - destruct (choose_decide (user_handlers p) (x :: r)) as (e & Ce & D); [discriminate|]. rewrite Ce.
-      destruct (lookup (handlers_of (user_handlers p)) e) as [h|]; destruct D as [D1 D2].
-      + rewrite D1. eexists; split; [reflexivity | now rewrite D2].
-      + rewrite D1. eexists; split; [reflexivity | now rewrite D2]. }
-  destruct Q as (d & Q1 & Q2). exists s, d. rewrite Q2 in R. rewrite Q1 in T.
-  split; [exact R|]. split.
-  { rewrite T, calls_app, C0. reflexivity. }
-  repeat split; assumption.
+  unfold run. destruct (run_from_verdict p (init p a0)) as (s & d & R & C & L & K & X & U & _).
+  cbn [force init log tr uh] in *. rewrite verdict_from_fresh in *. rewrite collected_run_raised in X.
+  exists s, d. repeat split; assumption.
 Qed.
 
 (* the verdict in Spec.Run's own words: the exception reported for (the first one nobody is
